@@ -15,7 +15,7 @@ use crate::report::Violation;
 use crate::util::{fnv, Rng, J};
 use crate::Ctx;
 
-const CORPUS_PROPS: &[&str] = &["C02", "C03", "C09", "C10", "C12", "C16", "C03", "C09"];
+const CORPUS_PROPS: &[&str] = &["C02", "C03", "C09", "C10", "C12", "C16", "C03", "C09", "C18"];
 
 /// Canonical, segmentation-independent observation.
 fn canon(obs: &ConvObs) -> Vec<String> {
